@@ -1,4 +1,5 @@
 import Flurry.Lemmas.SeqOps
+import Flurry.Gen.Guards
 /-! # C13 — `retain` / `retain_force` are the filter
 
 The predicate gets `(key, value payload, value id)` and answers `some true` (keep), `some false`
@@ -49,5 +50,42 @@ example : Good ex2 := ex2_good
 example : absMap (retain false (fun _ v _ => some (decide (v > 10))) ex2).1 1 = none ∧
     absMap (retain false (fun _ v _ => some (decide (v > 10))) ex2).1 2 = some (8, 20, 200) := by
   decide
+
+/-! ## the reference wrappers are the same operations
+
+`HashMapRef` / `HashSetRef` (what `pin()` and `with_guard()` return) carry their own guard and are
+what most callers use. The statements above are about `HashMap::retain` / `retain_force` (and the
+model's operations in general); they transfer to the wrapper API because every wrapper method whose
+name also exists on the wrapped collection hands its guard to exactly that method and to nothing
+else — on the guard-flow table regenerated from the source. (A wrapper `retain_force` that calls
+`retain` is invisible to every sequential test: the two differ only under a concurrent
+replacement.) Trait methods (`eq`, …) are excluded: they delegate to differently named helpers. -/
+section Wrappers
+open Flurry.Sig Flurry.Gen
+
+def innerOf (ty : String) : String :=
+  if ty == "HashMapRef" then "HashMap" else if ty == "HashSetRef" then "HashSet" else ""
+
+/-- the callee names (`Type::fn`) a row hands its guard to -/
+def callees (r : GFn) : List String :=
+  r.uses.filterMap fun u => match u with | .call _ n => some n | _ => none
+
+def traitMethod (f : String) : Bool := f == "eq" || f == "clone" || f == "fmt" || f == "index" || f == "into_iter"
+
+/-- a wrapper method whose name also exists on the wrapped collection delegates to exactly that method -/
+def delegatesByName (r : GFn) : Bool :=
+  let inner := innerOf r.ty
+  if inner == "" || !r.pub || r.param != "self.guard" || traitMethod r.fn then true
+  else if guardFns.any (fun q => q.ty == inner && q.fn == r.fn) then callees r == [inner ++ "::" ++ r.fn]
+  else true
+
+theorem wrappers_delegate_by_name : guardFns.all delegatesByName = true := by decide
+
+-- non-vacuity: the table contains the wrapper rows the statement is about
+example : (guardFns.filter fun r => innerOf r.ty != "" && r.pub && r.param == "self.guard" && !traitMethod r.fn &&
+    guardFns.any (fun q => q.ty == innerOf r.ty && q.fn == r.fn)).length ≥ 25 := by decide
+example : guardFns.any (fun r => r.ty == "HashMapRef" && r.fn == "retain_force" &&
+    callees r == ["HashMap::retain_force"]) = true := by decide
+end Wrappers
 
 end Flurry.C13
